@@ -41,6 +41,10 @@ def probes(c, lo, hi):
     if c["kind"] == "enum":
         out = [{"k": "int", "v": v} for _, v in c["members"]] + [{"k": "int", "v": -1}, {"k": "int", "v": 999}]
         out += [{"k": "name", "n": n} for n, _ in c["members"]] + [{"k": "name", "n": "no_such_member"}]
+        # names that are attributes of every enumeration class / of int, but no members
+        taken = {n for n, _ in c["members"]}
+        out += [{"k": "name", "n": n} for n in ("real", "imag", "numerator", "to_bytes", "bit_length", "mro", "__members__", "name", "value", "__class__")
+                if n not in taken]
         return out
     if c["kind"] == "bool":
         return [{"k": "int", "v": v} for v in (0, 1, 2)]
@@ -68,6 +72,41 @@ def readback(m, name):
         return val(getattr(m, name))
     except Exception:
         return -777777
+
+
+def attached_repeat_events(spec):
+    """A module that is attached to a project and already HOLDS a value beyond its range (a lenient load leaves such values):
+    assigning that very value again in strict mode is refused like any other out-of-range assignment."""
+    from rv.errors import override_raise_controller_value_errors
+    import rv.api as api
+    cl = classes()
+    events = []
+    for t, st in sorted(spec.items()):
+        cls = cl.get(t)
+        if cls is None or t == "Output":
+            continue
+        names = list(cls.controllers)
+        for i, c in enumerate(st["ctls"], 1):
+            if c["kind"] not in ("range", "compact", "nooffset") or (t == "SpectraVoice" and c["name"].startswith("h")):
+                continue
+            for v in (c["max"] + 1, c["min"] - 1):
+                for attached in (True, False):
+                    try:
+                        m = cls()
+                        if attached:
+                            api.Project().attach_module(m)
+                        with override_raise_controller_value_errors(False):
+                            setattr(m, names[i - 1], v)
+                        old = readback(m, names[i - 1])
+                    except Exception:
+                        continue
+                    if old != v:
+                        continue                 # (lenient mode did not keep it: nothing to repeat)
+                    out, _ = outcome_of(lambda: setattr(m, names[i - 1], v))
+                    events.append({"op": "set", "t": t, "i": i, "u": 0, "strict": True, "how": "attr-repeat-" + ("attached" if attached else "free"),
+                                   "arg": {"k": "int", "v": v, "n": ""}, "old": old, "outcome": "exception" if out.startswith("exception:") else out,
+                                   "has": True, "got": readback(m, names[i - 1])})
+    return events
 
 
 def meta_events(spec):
